@@ -459,7 +459,12 @@ def code_config(prog: Program, cls: ClassInfo) -> Dict[str, Any]:
     for func, call in _getter_calls(prog, closure):
         if not (call.args and isinstance(call.args[0], ast.Constant) and isinstance(call.args[0].value, str)):
             continue
-        if not norm(call.func.value).endswith("plugin_configuration"):
+        receiver = call.func.value
+        if isinstance(receiver, ast.Name):  # a local that holds the configuration facade
+            held = [n.value for n in walk_local(func.node) if isinstance(n, ast.Assign) and any(isinstance(t, ast.Name) and t.id == receiver.id for t in n.targets)]
+            if len(held) == 1:
+                receiver = held[0]
+        if not norm(receiver).endswith("plugin_configuration"):
             continue
         kind = {"get_boolean_property": "boolean", "get_integer_property": "integer", "get_string_property": "string"}[call.func.attr]  # type: ignore[attr-defined]
         default_node = next((k.value for k in call.keywords if k.arg == "default_value"), None)
